@@ -1,322 +1,2 @@
-(* GENERATED by translate/py2v.py from matched_markets/methodology/tbrmatchedmarkets.py -- do not edit; rewritten on every run *)
-From Coq Require Import List Arith ZArith Bool.
-From MM Require Import lib.ListSet lib.Combi lib.Values model.Heap model.Elig model.SearchParams gen.Gen_HeapDict gen.Gen_Search.
-Import ListNotations.
-
-(* TBRMatchedMarkets.exhaustive_search; see translate/py2v.py (t_exhaustive) for the reading of the objects. *)
-Section GenExhaustive.
-  Context {V K : Type} (O : vops V) (ltk : K -> K -> bool).
-  Variables (A : assignments) (par : spar V) (shareS optB : set -> V) (bud : set -> set -> V)
-            (score0 : set -> set -> K) (replace_inv : K -> V -> K).
-  Notation vltb := (vltb O). Notation vleb := (vleb O). Notation veqb := (veqb O).
-  Notation vadd := (vadd O). Notation vsub := (vsub O). Notation vmul := (vmul O).
-  Notation vdiv := (vdiv O). Notation vofZ := (vofZ O). Notation vlit := (vlit O).
-
-  Definition des : Type := (K * (set * set) * (set * set))%type.   (* score, (treatment, control), groups of its diag *)
-  Definition des_key (d : des) : K := fst (fst d).
-
-  Definition gen_exhaustive_search : list (Z * list des) :=
-    let treatment_share_range := (p_treatment_share_range par) in
-    let budget_range := (p_budget_range par) in
-    let size_range := (u_treatment_group_size_range O A par shareS) in
-    let skip_this_trt_group_size := (if (negb (is_nil size_range)) then Some (last size_range 0%Z) else None) in
-    let skip_treatment_geo_patterns := [] in
-    let results := (@GenHeapDict.gen_init des (p_n_designs par)) in
-    let volume_tol := (p_volume_ratio_tolerance par) in
-    (match volume_tol with
-     | None => let treatment_group_sizes := (u_treatment_group_size_range O A par shareS) in
-    let '(results, skip_treatment_geo_patterns) := fold_left (fun acc__ treatment_group_size =>
-    let '(results, skip_treatment_geo_patterns) := acc__ in
-    let save_treatment_groups := (negb (match skip_this_trt_group_size with Some v__ => Z.eqb treatment_group_size v__ | None => false end)) in
-    let treatment_groups := (u_treatment_group_generator O A par shareS treatment_group_size) in
-    let '(skip_treatment_geo_patterns, results) := fold_left (fun acc__ treatment_group =>
-    let '(skip_treatment_geo_patterns, results) := acc__ in
-    let treatment_share := (shareS treatment_group) in
-    (match treatment_share_range with
-     | None => (if ((existsb (fun p => (subset p treatment_group)) skip_treatment_geo_patterns))
-     then (skip_treatment_geo_patterns, results)
-     else let y := treatment_group in
-    let diag := y in
-    let req_impact := (optB diag) in
-    let req_budget := (vdiv req_impact (p_iroas par)) in
-    (match budget_range with
-     | None => let control_groups := (u_control_group_generator O A par shareS treatment_group) in
-    let '(req_impact, req_budget, results) := fold_left (fun acc__ control_group =>
-    let '(req_impact, req_budget, results) := acc__ in
-    let diag := (diag, control_group) in
-    let corr := tt in
-    let req_impact := (bud (fst diag) (snd diag)) in
-    let req_budget := (vdiv req_impact (p_iroas par)) in
-    let design_score := (score0 (fst diag) (snd diag)) in
-    let score := design_score in
-    let design := (design_score, (treatment_group, control_group), diag) in
-    let results := (GenHeapDict.gen_push ltk des_key results 0%Z design) in
-    (req_impact, req_budget, results)) control_groups (req_impact, req_budget, results) in
-    (skip_treatment_geo_patterns, results)
-     | Some budget_range__ => (if (vltb (snd budget_range__) req_budget)
-     then (if save_treatment_groups
-     then let skip_treatment_geo_patterns := (skip_treatment_geo_patterns ++ [treatment_group]) in
-    (skip_treatment_geo_patterns, results)
-     else let control_groups := (u_control_group_generator O A par shareS treatment_group) in
-    let '(req_impact, req_budget, results) := fold_left (fun acc__ control_group =>
-    let '(req_impact, req_budget, results) := acc__ in
-    let diag := (diag, control_group) in
-    let corr := tt in
-    let req_impact := (bud (fst diag) (snd diag)) in
-    let req_budget := (vdiv req_impact (p_iroas par)) in
-    (if (gen_constraint_not_satisfied O req_budget (fst budget_range__) (snd budget_range__))
-     then (req_impact, req_budget, results)
-     else let design_score := (score0 (fst diag) (snd diag)) in
-    let score := design_score in
-    let iroas := (vdiv req_impact (snd budget_range__)) in
-    let design_score := (replace_inv score (vdiv (vofZ 1%Z) iroas)) in
-    let design := (design_score, (treatment_group, control_group), diag) in
-    let results := (GenHeapDict.gen_push ltk des_key results 0%Z design) in
-    (req_impact, req_budget, results))) control_groups (req_impact, req_budget, results) in
-    (skip_treatment_geo_patterns, results))
-     else (if (vltb req_budget (fst budget_range__))
-     then (skip_treatment_geo_patterns, results)
-     else let control_groups := (u_control_group_generator O A par shareS treatment_group) in
-    let '(req_impact, req_budget, results) := fold_left (fun acc__ control_group =>
-    let '(req_impact, req_budget, results) := acc__ in
-    let diag := (diag, control_group) in
-    let corr := tt in
-    let req_impact := (bud (fst diag) (snd diag)) in
-    let req_budget := (vdiv req_impact (p_iroas par)) in
-    (if (gen_constraint_not_satisfied O req_budget (fst budget_range__) (snd budget_range__))
-     then (req_impact, req_budget, results)
-     else let design_score := (score0 (fst diag) (snd diag)) in
-    let score := design_score in
-    let iroas := (vdiv req_impact (snd budget_range__)) in
-    let design_score := (replace_inv score (vdiv (vofZ 1%Z) iroas)) in
-    let design := (design_score, (treatment_group, control_group), diag) in
-    let results := (GenHeapDict.gen_push ltk des_key results 0%Z design) in
-    (req_impact, req_budget, results))) control_groups (req_impact, req_budget, results) in
-    (skip_treatment_geo_patterns, results)))
-     end))
-     | Some treatment_share_range__ => (if ((vltb (snd treatment_share_range__) treatment_share) || (vltb treatment_share (fst treatment_share_range__)))
-     then (skip_treatment_geo_patterns, results)
-     else let y := treatment_group in
-    let diag := y in
-    let req_impact := (optB diag) in
-    let req_budget := (vdiv req_impact (p_iroas par)) in
-    (match budget_range with
-     | None => let control_groups := (u_control_group_generator O A par shareS treatment_group) in
-    let '(req_impact, req_budget, results) := fold_left (fun acc__ control_group =>
-    let '(req_impact, req_budget, results) := acc__ in
-    let diag := (diag, control_group) in
-    let corr := tt in
-    let req_impact := (bud (fst diag) (snd diag)) in
-    let req_budget := (vdiv req_impact (p_iroas par)) in
-    let design_score := (score0 (fst diag) (snd diag)) in
-    let score := design_score in
-    let design := (design_score, (treatment_group, control_group), diag) in
-    let results := (GenHeapDict.gen_push ltk des_key results 0%Z design) in
-    (req_impact, req_budget, results)) control_groups (req_impact, req_budget, results) in
-    (skip_treatment_geo_patterns, results)
-     | Some budget_range__ => (if (vltb (snd budget_range__) req_budget)
-     then (if save_treatment_groups
-     then let skip_treatment_geo_patterns := (skip_treatment_geo_patterns ++ [treatment_group]) in
-    (skip_treatment_geo_patterns, results)
-     else let control_groups := (u_control_group_generator O A par shareS treatment_group) in
-    let '(req_impact, req_budget, results) := fold_left (fun acc__ control_group =>
-    let '(req_impact, req_budget, results) := acc__ in
-    let diag := (diag, control_group) in
-    let corr := tt in
-    let req_impact := (bud (fst diag) (snd diag)) in
-    let req_budget := (vdiv req_impact (p_iroas par)) in
-    (if (gen_constraint_not_satisfied O req_budget (fst budget_range__) (snd budget_range__))
-     then (req_impact, req_budget, results)
-     else let design_score := (score0 (fst diag) (snd diag)) in
-    let score := design_score in
-    let iroas := (vdiv req_impact (snd budget_range__)) in
-    let design_score := (replace_inv score (vdiv (vofZ 1%Z) iroas)) in
-    let design := (design_score, (treatment_group, control_group), diag) in
-    let results := (GenHeapDict.gen_push ltk des_key results 0%Z design) in
-    (req_impact, req_budget, results))) control_groups (req_impact, req_budget, results) in
-    (skip_treatment_geo_patterns, results))
-     else (if (vltb req_budget (fst budget_range__))
-     then (skip_treatment_geo_patterns, results)
-     else let control_groups := (u_control_group_generator O A par shareS treatment_group) in
-    let '(req_impact, req_budget, results) := fold_left (fun acc__ control_group =>
-    let '(req_impact, req_budget, results) := acc__ in
-    let diag := (diag, control_group) in
-    let corr := tt in
-    let req_impact := (bud (fst diag) (snd diag)) in
-    let req_budget := (vdiv req_impact (p_iroas par)) in
-    (if (gen_constraint_not_satisfied O req_budget (fst budget_range__) (snd budget_range__))
-     then (req_impact, req_budget, results)
-     else let design_score := (score0 (fst diag) (snd diag)) in
-    let score := design_score in
-    let iroas := (vdiv req_impact (snd budget_range__)) in
-    let design_score := (replace_inv score (vdiv (vofZ 1%Z) iroas)) in
-    let design := (design_score, (treatment_group, control_group), diag) in
-    let results := (GenHeapDict.gen_push ltk des_key results 0%Z design) in
-    (req_impact, req_budget, results))) control_groups (req_impact, req_budget, results) in
-    (skip_treatment_geo_patterns, results)))
-     end))
-     end)) treatment_groups (skip_treatment_geo_patterns, results) in
-    (results, skip_treatment_geo_patterns)) treatment_group_sizes (results, skip_treatment_geo_patterns) in
-    (GenHeapDict.gen_get_result ltk des_key results)
-     | Some volume_tol__ => let tol_min := (vdiv (vlit 1%Z 0%Z) (vadd (vlit 1%Z 0%Z) volume_tol__)) in
-    let tol_max := (vadd (vlit 1%Z 0%Z) volume_tol__) in
-    let treatment_group_sizes := (u_treatment_group_size_range O A par shareS) in
-    let '(results, skip_treatment_geo_patterns) := fold_left (fun acc__ treatment_group_size =>
-    let '(results, skip_treatment_geo_patterns) := acc__ in
-    let save_treatment_groups := (negb (match skip_this_trt_group_size with Some v__ => Z.eqb treatment_group_size v__ | None => false end)) in
-    let treatment_groups := (u_treatment_group_generator O A par shareS treatment_group_size) in
-    let '(skip_treatment_geo_patterns, results) := fold_left (fun acc__ treatment_group =>
-    let '(skip_treatment_geo_patterns, results) := acc__ in
-    let treatment_share := (shareS treatment_group) in
-    (match treatment_share_range with
-     | None => (if ((existsb (fun p => (subset p treatment_group)) skip_treatment_geo_patterns))
-     then (skip_treatment_geo_patterns, results)
-     else let y := treatment_group in
-    let diag := y in
-    let req_impact := (optB diag) in
-    let req_budget := (vdiv req_impact (p_iroas par)) in
-    (match budget_range with
-     | None => let control_groups := (u_control_group_generator O A par shareS treatment_group) in
-    let '(req_impact, req_budget, results) := fold_left (fun acc__ control_group =>
-    let '(req_impact, req_budget, results) := acc__ in
-    let control_share := (shareS control_group) in
-    let xy_share := (vdiv control_share treatment_share) in
-    (if ((vltb tol_max xy_share) || (vltb xy_share tol_min))
-     then (req_impact, req_budget, results)
-     else let diag := (diag, control_group) in
-    let corr := tt in
-    let req_impact := (bud (fst diag) (snd diag)) in
-    let req_budget := (vdiv req_impact (p_iroas par)) in
-    let design_score := (score0 (fst diag) (snd diag)) in
-    let score := design_score in
-    let design := (design_score, (treatment_group, control_group), diag) in
-    let results := (GenHeapDict.gen_push ltk des_key results 0%Z design) in
-    (req_impact, req_budget, results))) control_groups (req_impact, req_budget, results) in
-    (skip_treatment_geo_patterns, results)
-     | Some budget_range__ => (if (vltb (snd budget_range__) req_budget)
-     then (if save_treatment_groups
-     then let skip_treatment_geo_patterns := (skip_treatment_geo_patterns ++ [treatment_group]) in
-    (skip_treatment_geo_patterns, results)
-     else let control_groups := (u_control_group_generator O A par shareS treatment_group) in
-    let '(req_impact, req_budget, results) := fold_left (fun acc__ control_group =>
-    let '(req_impact, req_budget, results) := acc__ in
-    let control_share := (shareS control_group) in
-    let xy_share := (vdiv control_share treatment_share) in
-    (if ((vltb tol_max xy_share) || (vltb xy_share tol_min))
-     then (req_impact, req_budget, results)
-     else let diag := (diag, control_group) in
-    let corr := tt in
-    let req_impact := (bud (fst diag) (snd diag)) in
-    let req_budget := (vdiv req_impact (p_iroas par)) in
-    (if (gen_constraint_not_satisfied O req_budget (fst budget_range__) (snd budget_range__))
-     then (req_impact, req_budget, results)
-     else let design_score := (score0 (fst diag) (snd diag)) in
-    let score := design_score in
-    let iroas := (vdiv req_impact (snd budget_range__)) in
-    let design_score := (replace_inv score (vdiv (vofZ 1%Z) iroas)) in
-    let design := (design_score, (treatment_group, control_group), diag) in
-    let results := (GenHeapDict.gen_push ltk des_key results 0%Z design) in
-    (req_impact, req_budget, results)))) control_groups (req_impact, req_budget, results) in
-    (skip_treatment_geo_patterns, results))
-     else (if (vltb req_budget (fst budget_range__))
-     then (skip_treatment_geo_patterns, results)
-     else let control_groups := (u_control_group_generator O A par shareS treatment_group) in
-    let '(req_impact, req_budget, results) := fold_left (fun acc__ control_group =>
-    let '(req_impact, req_budget, results) := acc__ in
-    let control_share := (shareS control_group) in
-    let xy_share := (vdiv control_share treatment_share) in
-    (if ((vltb tol_max xy_share) || (vltb xy_share tol_min))
-     then (req_impact, req_budget, results)
-     else let diag := (diag, control_group) in
-    let corr := tt in
-    let req_impact := (bud (fst diag) (snd diag)) in
-    let req_budget := (vdiv req_impact (p_iroas par)) in
-    (if (gen_constraint_not_satisfied O req_budget (fst budget_range__) (snd budget_range__))
-     then (req_impact, req_budget, results)
-     else let design_score := (score0 (fst diag) (snd diag)) in
-    let score := design_score in
-    let iroas := (vdiv req_impact (snd budget_range__)) in
-    let design_score := (replace_inv score (vdiv (vofZ 1%Z) iroas)) in
-    let design := (design_score, (treatment_group, control_group), diag) in
-    let results := (GenHeapDict.gen_push ltk des_key results 0%Z design) in
-    (req_impact, req_budget, results)))) control_groups (req_impact, req_budget, results) in
-    (skip_treatment_geo_patterns, results)))
-     end))
-     | Some treatment_share_range__ => (if ((vltb (snd treatment_share_range__) treatment_share) || (vltb treatment_share (fst treatment_share_range__)))
-     then (skip_treatment_geo_patterns, results)
-     else let y := treatment_group in
-    let diag := y in
-    let req_impact := (optB diag) in
-    let req_budget := (vdiv req_impact (p_iroas par)) in
-    (match budget_range with
-     | None => let control_groups := (u_control_group_generator O A par shareS treatment_group) in
-    let '(req_impact, req_budget, results) := fold_left (fun acc__ control_group =>
-    let '(req_impact, req_budget, results) := acc__ in
-    let control_share := (shareS control_group) in
-    let xy_share := (vdiv control_share treatment_share) in
-    (if ((vltb tol_max xy_share) || (vltb xy_share tol_min))
-     then (req_impact, req_budget, results)
-     else let diag := (diag, control_group) in
-    let corr := tt in
-    let req_impact := (bud (fst diag) (snd diag)) in
-    let req_budget := (vdiv req_impact (p_iroas par)) in
-    let design_score := (score0 (fst diag) (snd diag)) in
-    let score := design_score in
-    let design := (design_score, (treatment_group, control_group), diag) in
-    let results := (GenHeapDict.gen_push ltk des_key results 0%Z design) in
-    (req_impact, req_budget, results))) control_groups (req_impact, req_budget, results) in
-    (skip_treatment_geo_patterns, results)
-     | Some budget_range__ => (if (vltb (snd budget_range__) req_budget)
-     then (if save_treatment_groups
-     then let skip_treatment_geo_patterns := (skip_treatment_geo_patterns ++ [treatment_group]) in
-    (skip_treatment_geo_patterns, results)
-     else let control_groups := (u_control_group_generator O A par shareS treatment_group) in
-    let '(req_impact, req_budget, results) := fold_left (fun acc__ control_group =>
-    let '(req_impact, req_budget, results) := acc__ in
-    let control_share := (shareS control_group) in
-    let xy_share := (vdiv control_share treatment_share) in
-    (if ((vltb tol_max xy_share) || (vltb xy_share tol_min))
-     then (req_impact, req_budget, results)
-     else let diag := (diag, control_group) in
-    let corr := tt in
-    let req_impact := (bud (fst diag) (snd diag)) in
-    let req_budget := (vdiv req_impact (p_iroas par)) in
-    (if (gen_constraint_not_satisfied O req_budget (fst budget_range__) (snd budget_range__))
-     then (req_impact, req_budget, results)
-     else let design_score := (score0 (fst diag) (snd diag)) in
-    let score := design_score in
-    let iroas := (vdiv req_impact (snd budget_range__)) in
-    let design_score := (replace_inv score (vdiv (vofZ 1%Z) iroas)) in
-    let design := (design_score, (treatment_group, control_group), diag) in
-    let results := (GenHeapDict.gen_push ltk des_key results 0%Z design) in
-    (req_impact, req_budget, results)))) control_groups (req_impact, req_budget, results) in
-    (skip_treatment_geo_patterns, results))
-     else (if (vltb req_budget (fst budget_range__))
-     then (skip_treatment_geo_patterns, results)
-     else let control_groups := (u_control_group_generator O A par shareS treatment_group) in
-    let '(req_impact, req_budget, results) := fold_left (fun acc__ control_group =>
-    let '(req_impact, req_budget, results) := acc__ in
-    let control_share := (shareS control_group) in
-    let xy_share := (vdiv control_share treatment_share) in
-    (if ((vltb tol_max xy_share) || (vltb xy_share tol_min))
-     then (req_impact, req_budget, results)
-     else let diag := (diag, control_group) in
-    let corr := tt in
-    let req_impact := (bud (fst diag) (snd diag)) in
-    let req_budget := (vdiv req_impact (p_iroas par)) in
-    (if (gen_constraint_not_satisfied O req_budget (fst budget_range__) (snd budget_range__))
-     then (req_impact, req_budget, results)
-     else let design_score := (score0 (fst diag) (snd diag)) in
-    let score := design_score in
-    let iroas := (vdiv req_impact (snd budget_range__)) in
-    let design_score := (replace_inv score (vdiv (vofZ 1%Z) iroas)) in
-    let design := (design_score, (treatment_group, control_group), diag) in
-    let results := (GenHeapDict.gen_push ltk des_key results 0%Z design) in
-    (req_impact, req_budget, results)))) control_groups (req_impact, req_budget, results) in
-    (skip_treatment_geo_patterns, results)))
-     end))
-     end)) treatment_groups (skip_treatment_geo_patterns, results) in
-    (results, skip_treatment_geo_patterns)) treatment_group_sizes (results, skip_treatment_geo_patterns) in
-    (GenHeapDict.gen_get_result ltk des_key results)
-     end).
-End GenExhaustive.
+(* translator refused: Unsupported: line 388: unknown name: Name(id='treatment_share', ctx=Load()) *)
+Translator_refused_this_source.
